@@ -49,10 +49,11 @@ TrDenied == IsEvent("LocalSetDenied") /\ LET x == Trace[l] IN Step(x, LocalSetDe
 TrStart == IsEvent("ExchStart") /\ LET x == Trace[l] IN Step(x, ExchStart(x.s, x.peer), {})
 TrServe == IsEvent("ExchServe") /\ LET x == Trace[l] IN Step(x, ExchServe(x.fault), {})
 TrApply == IsEvent("ExchApply") /\ LET x == Trace[l] IN Step(x, ExchApply(x.fault), {})
+TrRestart == IsEvent("Restart") /\ LET x == Trace[l] IN Step(x, Restart(x.s), {})
 TrFinish == IsEvent("ExchFinish") /\ LET x == Trace[l] IN Step(x, ExchFinish, {})
 
 TraceInit == Init /\ l = 1
-TraceNext == TrReset \/ TrPush \/ TrLocal \/ TrDenied \/ TrStart \/ TrServe \/ TrApply \/ TrFinish
+TraceNext == TrReset \/ TrPush \/ TrLocal \/ TrDenied \/ TrStart \/ TrServe \/ TrApply \/ TrFinish \/ TrRestart
 TraceSpec == TraceInit /\ [][TraceNext]_tvars
 
 \* Monotone of KeyValue, except across the Reset lines that separate recorded runs
